@@ -118,17 +118,21 @@ func (j *Joe) Subscribe(ctx context.Context, sub Subscription) error {
 
 	done := make(chan error, 1)
 
+	verifYield(ctx, "sub:enter")
+
 	select {
 	case <-j.done:
 		return ErrProviderClosed
 	case j.subscription <- subscription{done: done, Subscription: sub}:
 	}
+	verifYield(ctx, "sub:registered")
 
 	select {
 	case err := <-done:
 		return err
 	case <-ctx.Done():
 	}
+	verifYield(ctx, "sub:ctxdone")
 
 	select {
 	case err := <-done:
@@ -160,11 +164,13 @@ func (j *Joe) Publish(msg *Message, topics []string) error {
 	pub := publishedMessage{replayerErr: errs}
 	pub.message = msg
 	pub.topics = topics
+	verifYield(msg, "pub:enter")
 
 	// Waiting on done ensures Publish doesn't block the caller goroutine
 	// when Joe is stopped and implements the required Provider behavior.
 	select {
 	case j.message <- pub:
+		verifYield(msg, "pub:accepted")
 		return <-errs
 	case <-j.done:
 		return ErrProviderClosed
@@ -184,7 +190,9 @@ func (j *Joe) Shutdown(ctx context.Context) (err error) {
 		}
 	}()
 
+	verifYield(ctx, "shut:enter")
 	close(j.done)
+	verifYield(ctx, "shut:closed")
 
 	select {
 	case <-j.closed:
@@ -205,10 +213,13 @@ func (j *Joe) start(replay Replayer) {
 	// defer closing all subscribers instead of closing them when done is closed
 	// so in case of a panic subscribers won't block the request goroutines forever.
 	defer j.closeSubscribers()
+	defer verifRecover(j)
 
 	for {
+		verifYield(j, "loop:idle")
 		select {
 		case msg := <-j.message:
+			verifYield(j, "loop:msg")
 			if replay != nil {
 				m, err := tryPut(msg.messageWithTopics, &replay)
 				if _, isPanic := err.(replayPanic); err != nil && !isPanic { //nolint:errorlint // it's our error
@@ -236,6 +247,7 @@ func (j *Joe) start(replay Replayer) {
 				}
 			}
 		case sub := <-j.subscription:
+			verifYield(j, "loop:sub")
 			var err error
 			if replay != nil {
 				err = tryReplay(sub.Subscription, &replay)
@@ -254,8 +266,10 @@ func (j *Joe) start(replay Replayer) {
 				j.subscribers[sub.done] = sub.Subscription
 			}
 		case sub := <-j.unsubscription:
+			verifYield(j, "loop:unsub")
 			j.removeSubscriber(sub)
 		case <-j.done:
+			verifYield(j, "loop:done")
 			return
 		}
 	}
